@@ -15,13 +15,13 @@ Qed.
 
 Lemma ns_list_zero l : ns_count_list l = 0 -> Forall (fun c => ns_count c = 0) l.
 Proof.
-  induction l as [|x r IH]; intros H; [constructor|].
+  unfold ns_count_list, ns_count. induction l as [|x r IH]; intros H; [constructor|].
   rewrite ns_list_cons in H. constructor; [lia | apply IH; lia].
 Qed.
 
 Lemma ns_zero_children t cs : plain (Node t cs) = true -> ns_count (Node t cs) = 0 ->
   Forall (fun c => ns_count c = 0) cs.
-Proof. intros P H. rewrite ns_node in H by exact P. apply ns_list_zero. exact H. Qed.
+Proof. intros P H. unfold ns_count in H. rewrite ns_node_nostop in H by exact P. apply ns_list_zero. exact H. Qed.
 
 Definition good (n : node) : Prop := wf_all n = true /\ ns_count n = 0.
 
@@ -72,11 +72,21 @@ Proof.
   unfold is_kind. simpl. unfold kind_eqb. destruct (kind_eq_dec KParen KParen); [discriminate | contradiction].
 Qed.
 
+(** ** Generic part: any additive measure [meas stop kappa] that vanishes on clean well-formed inputs
+    and on the normalised form of their arrow functions *)
+Section Generic.
+  Variable stop : node -> option nat.
+  Variable kappa : nat.
+  Local Notation mu := (meas stop kappa).
+  Local Notation mul := (meas_list stop kappa).
+  Hypothesis mu_good : forall n, good n -> mu n = 0.
+  Hypothesis mu_arrow : forall n, good n -> mu (arrow_transform n) = 0.
+
 Lemma hoist_key_clean c prop prop1 span a p prop' a' p' :
   (leaf prop = true /\ prop1 = prop) \/
   (exists lo hi e e1, prop = Node (K KComputed lo hi) [e] /\ prop1 = Node (K KComputed lo hi) [e1] /\
-                      ns_count e = 0 /\ (is_ident e1 = true -> e1 = e)) ->
-  hoist_key c prop1 span a p = (prop', a', p') -> ns_count prop' = 0.
+                      mu e = 0 /\ (is_ident e1 = true -> e1 = e)) ->
+  hoist_key c prop1 span a p = (prop', a', p') -> mu prop' = 0.
 Proof.
   intros [[L ->] | (lo & hi & e & e1 & -> & -> & Z & F)].
   - unfold hoist_key. destruct prop as [[k lo hi| | | | | |] cs]; try (intros H; inversion H; subst; apply ns_leaf; exact L).
@@ -88,7 +98,7 @@ Proof.
       * intros H; inversion H; subst. rewrite (ns_node (K KComputed lo hi)) by reflexivity. simpl. rewrite (ns_lit _ L). lia.
       * destruct (get_temporal c e1 span IKExpr a p) as [[id a2] p2] eqn:T.
         intros H; inversion H; subst. rewrite (ns_node (K KComputed lo hi)) by reflexivity. simpl.
-        pose proof T as T0. apply get_temporal_ns in T. destruct T as [_ Y].
+        pose proof T as T0. apply (get_temporal_ns (stop:=stop) (kappa:=kappa)) in T. destruct T as [_ Y].
         destruct id as [i|]; [rewrite (Y ltac:(discriminate)); lia|].
         unfold get_temporal in T0. rewrite L in T0. unfold next_ident in T0. cbn [fst snd] in T0. inversion T0.
 Qed.
@@ -129,10 +139,10 @@ Section Visit.
   Qed.
 
   Lemma visit_prop fuel root prop s prop1 s1 :
-    op_visit c fuel root prop s = Some (prop1, s1) -> prop_ok prop = true -> ns_count prop = 0 ->
+    op_visit c fuel root prop s = Some (prop1, s1) -> prop_ok prop = true -> mu prop = 0 ->
     (leaf prop = true /\ prop1 = prop) \/
     (exists lo hi e e1, prop = Node (K KComputed lo hi) [e] /\ prop1 = Node (K KComputed lo hi) [e1] /\
-                        ns_count e = 0 /\ (is_ident e1 = true -> e1 = e)).
+                        mu e = 0 /\ (is_ident e1 = true -> e1 = e)).
   Proof.
     intros H P Z. unfold prop_ok in P. destruct (leaf prop) eqn:L.
     - left. split; [reflexivity|]. eapply op_visit_leaf in H; [tauto | exact L].
@@ -147,8 +157,8 @@ Section Visit.
 
   (** What [hoist_member] leaves of a visited member-like target carries no reference. *)
   Lemma hoist_member_clean fuel root t s t1 s1 span a p t' a' p' :
-    op_visit c fuel root t s = Some (t1, s1) -> member_like_ok t = true -> ns_count t = 0 ->
-    hoist_member c t1 span a p = Some (t', a', p') -> ns_count t' = 0.
+    op_visit c fuel root t s = Some (t1, s1) -> member_like_ok t = true -> mu t = 0 ->
+    hoist_member c t1 span a p = Some (t', a', p') -> mu t' = 0.
   Proof.
     intros H M Z. unfold member_like_ok in M.
     destruct t as [[k lo hi| | | | | |] cs]; try discriminate. destruct k; try discriminate.
@@ -156,7 +166,7 @@ Section Visit.
       destruct cs as [|obj [|prop [|? ?]]]; try discriminate.
       destruct fuel as [|f]; [discriminate|]. apply visit_member in H.
       destruct H as (obj1 & prop1 & s2 & -> & Ho & Hp).
-      rewrite (ns_node (K KMember lo hi)) in Z by reflexivity. cbn [ns_count_list fold_right] in Z.
+      rewrite (ns_node (K KMember lo hi)) in Z by reflexivity. cbn [mul fold_right] in Z.
       pose proof (visit_prop _ _ _ _ _ _ Hp M ltac:(lia)) as VP.
       unfold hoist_member.
       destruct (if is_ident obj1 || is_kind KThis obj1 then (obj1, a, p)
@@ -164,9 +174,9 @@ Section Visit.
                      (match id with Some i => i | None => obj1 end, a1, p1)) as [[obj2 a1] p1] eqn:E1.
       destruct (hoist_key c prop1 span a1 p1) as [[prop2 a2] p2] eqn:E2.
       intros X; inversion X; subst.
-      rewrite (ns_node (K KMember lo hi)) by reflexivity. cbn [ns_count_list fold_right].
+      rewrite (ns_node (K KMember lo hi)) by reflexivity. cbn [mul fold_right].
       rewrite (hoist_key_clean _ _ _ _ _ _ _ _ _ VP E2).
-      assert (O : ns_count obj2 = 0).
+      assert (O : mu obj2 = 0).
       { destruct (is_ident obj1) eqn:I.
         - simpl in E1. inversion E1; subst. rewrite (op_visit_ident_fix _ _ _ _ _ _ _ Ho I). lia.
         - simpl in E1. destruct (is_kind KThis obj1) eqn:T.
@@ -174,7 +184,7 @@ Section Visit.
             destruct obj2 as [[k2 l2 h2| | | | | |] ocs]; try discriminate T. simpl in T.
             unfold kind_eqb in T. destruct (kind_eq_dec KThis k2); [subst; reflexivity | discriminate].
           + destruct (get_temporal c obj1 span IKExpr a p) as [[id a3] p3] eqn:G. inversion E1; subst.
-            pose proof G as G0. apply get_temporal_ns in G. destruct G as [_ Y].
+            pose proof G as G0. apply (get_temporal_ns (stop:=stop) (kappa:=kappa)) in G. destruct G as [_ Y].
             destruct id as [i|]; [apply Y; discriminate|].
             unfold get_temporal in G0. destruct (is_lit obj1) eqn:L; [apply ns_lit; exact L|].
             unfold next_ident in G0. cbn [fst snd] in G0. inversion G0. }
@@ -184,12 +194,12 @@ Section Visit.
       apply andb_true_iff in M. destruct M as [Lo M].
       destruct fuel as [|f]; [discriminate|]. apply visit_superprop in H.
       destruct H as (obj1 & prop1 & s2 & -> & Ho & Hp).
-      rewrite (ns_node (K KSuperProp lo hi)) in Z by reflexivity. cbn [ns_count_list fold_right] in Z.
+      rewrite (ns_node (K KSuperProp lo hi)) in Z by reflexivity. cbn [mul fold_right] in Z.
       pose proof (visit_prop _ _ _ _ _ _ Hp M ltac:(lia)) as VP.
       eapply op_visit_leaf in Ho; [|exact Lo]. destruct Ho as [-> _].
       unfold hoist_member. destruct (hoist_key c prop1 span a p) as [[prop2 a2] p2] eqn:E2.
       intros X; inversion X; subst.
-      rewrite (ns_node (K KSuperProp lo hi)) by reflexivity. cbn [ns_count_list fold_right].
+      rewrite (ns_node (K KSuperProp lo hi)) by reflexivity. cbn [mul fold_right].
       rewrite (hoist_key_clean _ _ _ _ _ _ _ _ _ VP E2). rewrite (ns_leaf _ Lo). lia.
   Qed.
 End Visit.
@@ -199,20 +209,20 @@ Section Targets.
 
   (** For every admissible target [x]: after the visit, what hoisting leaves to be written twice has
       no reference (a member-like target: its hoisted form; otherwise the whole visited target). *)
-  Lemma target_clean : forall x, target_ok x = true -> ns_count x = 0 ->
+  Lemma target_clean : forall x, target_ok x = true -> mu x = 0 ->
     forall fuel root s x1 s1, op_visit c fuel root x s = Some (x1, s1) ->
     forall span a p,
       match hoist_member c (peel_parens x1) span a p with
-      | Some (t', _, _) => ns_count t' = 0
-      | None => ns_count x1 = 0
+      | Some (t', _, _) => mu t' = 0
+      | None => mu x1 = 0
       end.
   Proof.
-    apply (node_ind' (fun x => target_ok x = true -> ns_count x = 0 ->
+    apply (node_ind' (fun x => target_ok x = true -> mu x = 0 ->
       forall fuel root s x1 s1, op_visit c fuel root x s = Some (x1, s1) ->
       forall span a p,
         match hoist_member c (peel_parens x1) span a p with
-        | Some (t', _, _) => ns_count t' = 0
-        | None => ns_count x1 = 0
+        | Some (t', _, _) => mu t' = 0
+        | None => mu x1 = 0
         end)).
     intros t cs IH T Z fuel root s x1 s1 H span a p.
     cbn [target_ok] in T. apply orb_true_iff in T. destruct T as [T|T]; [apply orb_true_iff in T; destruct T as [T|T]|].
@@ -250,19 +260,19 @@ Section Targets.
       destruct fuel as [|f]; [discriminate|].
       apply visit_single in H; [|left; reflexivity]. destruct H as (e1 & -> & He).
       inversion IH as [|? ? IHe _]; subst.
-      rewrite (ns_node (K KParen lo hi)) in Z by reflexivity. cbn [ns_count_list fold_right] in Z.
+      rewrite (ns_node (K KParen lo hi)) in Z by reflexivity. cbn [mul fold_right] in Z.
       specialize (IHe T ltac:(lia) _ _ _ _ _ He span a p).
       cbn [peel_parens].
       destruct (hoist_member c (peel_parens e1) span a p) as [[[t' a'] p']|]; [exact IHe|].
-      rewrite (ns_node (K KParen lo hi)) by reflexivity. cbn [ns_count_list fold_right]. lia.
+      rewrite (ns_node (K KParen lo hi)) by reflexivity. cbn [mul fold_right]. lia.
   Qed.
 
   Lemma peel_of_inner x : (if is_kind KParen x then peel_parens x else x) = peel_parens x.
   Proof. destruct (is_kind KParen x) eqn:E; [reflexivity | symmetry; apply peel_not_paren; exact E]. Qed.
 
   Corollary hoist_target_clean x fuel root s x1 s1 span p lhs' hoisted p0 :
-    target_ok x = true -> ns_count x = 0 -> op_visit c fuel root x s = Some (x1, s1) ->
-    hoist_target c x1 span acc0 p = (lhs', hoisted, p0) -> ns_count lhs' = 0.
+    target_ok x = true -> mu x = 0 -> op_visit c fuel root x s = Some (x1, s1) ->
+    hoist_target c x1 span acc0 p = (lhs', hoisted, p0) -> mu lhs' = 0.
   Proof.
     intros T Z H. unfold hoist_target. rewrite peel_of_inner.
     pose proof (target_clean x T Z _ _ _ _ _ H span acc0 p) as Q.
@@ -298,7 +308,7 @@ Section OpLevel.
   Definition live (s : ostate) : Prop := t_status (o_t s) <> Cancelled.
   Definition cnt (s : ostate) : N := t_count (o_t s).
   Definition post (n' : node) (s s' : ostate) : Prop :=
-    (N.of_nat (ns_count n') + cnt s = cnt s')%N /\ live s'.
+    (N.of_nat (mu n') + N.of_nat kappa * cnt s = N.of_nat kappa * cnt s')%N /\ live s'.
 
   Lemma o_update_modified tag s : live s ->
     live (o_update c Modified tag s) /\ cnt (o_update c Modified tag s) = N.succ (cnt s).
@@ -316,7 +326,7 @@ Section OpLevel.
   Lemma map_st_count (f : node -> ostate -> option (node * ostate)) :
     forall l, (forall x, In x l -> forall s x' s', f x s = Some (x', s') -> good x -> live s -> post x' s s') ->
     forall s l' s', map_st f l s = Some (l', s') -> Forall good l -> live s ->
-      (N.of_nat (ns_count_list l') + cnt s = cnt s')%N /\ live s'.
+      (N.of_nat (mul l') + N.of_nat kappa * cnt s = N.of_nat kappa * cnt s')%N /\ live s'.
   Proof.
     induction l as [|x r IH]; intros Hf s l' s' H G L; simpl in H.
     - inversion H; subst. split; [simpl; lia | exact L].
@@ -339,39 +349,35 @@ Section OpLevel.
     - intros Lf. eapply op_visit_leaf in E; [tauto | exact Lf].
   Qed.
 
-  Lemma good_zero n : good n -> ns_count n = 0.
-  Proof. intros [_ Z]; exact Z. Qed.
-
   Theorem op_visit_count : forall fuel root n s n' s',
     op_visit c fuel root n s = Some (n', s') -> good n -> live s -> post n' s s'.
   Proof.
     induction fuel as [|f IH]; intros root n s n' s' H G L; [discriminate|].
     (* generic default traversal of a plain node whose tag is neither TaggedTpl nor OptChain *)
     assert (DV : forall r t cs s0 cs' s0',
-               plain (Node t cs) = true ->
+               plain (Node t cs) = true -> stop_kind (Node t cs) = false ->
                map_st (op_visit c f r) cs s0 = Some (cs', s0') -> good (Node t cs) -> live s0 ->
                post (Node t cs') s0 s0').
-    { intros r t cs s0 cs' s0' P E G0 L0.
+    { intros r t cs s0 cs' s0' P NB E G0 L0.
       destruct (map_st_count (op_visit c f r) cs (fun x _ => IH r x) _ _ _ E (good_children _ _ P G0) L0) as [A B].
-      split; [|exact B]. rewrite ns_node; [exact A|].
-      unfold plain in *. destruct t as [k lo hi| | | | | |]; try exact P; exact P. }
+      split; [|exact B]. rewrite ns_node; [exact A | exact P | exact NB]. }
     cbn [op_visit] in H. pose proof (classify_kind n) as CK. destruct (classify n) eqn:Cl.
-    - (* block *) inversion H; subst. split; [rewrite (good_zero _ G); simpl; lia | exact L].
-    - (* identifier *) inversion H; subst. split; [rewrite (good_zero _ G); unfold cnt; simpl; lia | exact L].
+    - (* block *) inversion H; subst. split; [rewrite (mu_good _ G); simpl; lia | exact L].
+    - (* identifier *) inversion H; subst. split; [rewrite (mu_good _ G); unfold cnt; simpl; lia | exact L].
     - (* + *)
       destruct n as [[k lo hi| | | | | |] cs]; try discriminate CK. inversion CK; subst k. clear CK.
       destruct (plus_enabled c).
       + destruct (default_visit_with (op_visit c f false) (Node (K KBin lo hi) cs) s) as [[n1 s1]|] eqn:E; [|discriminate].
         simpl in E. destruct (map_st (op_visit c f false) cs s) as [[cs1 sy]|] eqn:M; [|discriminate].
         inversion E; subst n1 sy. clear E.
-        destruct (DV false (K KBin lo hi) cs s cs1 s1 eq_refl M G L) as [P1 L1].
+        destruct (DV false (K KBin lo hi) cs s cs1 s1 eq_refl eq_refl M G L) as [P1 L1].
         unfold finish in H. inversion H; subst n' s'. clear H.
         unfold post, live, cnt. rewrite o_leave_t.
         unfold bin_step. destruct (is_op bin_op "+" (Node (K KBin lo hi) cs1)); [|exact (conj P1 L1)].
         destruct (binary_transform c (Node (K KBin lo hi) cs1) (o_p s1)) as [[e'|] p2] eqn:B.
         * cbn [fst snd].
           destruct (o_update_modified (Some gen_ADD_TAG) (o_with_p p2 s1) L1) as [L2 C2].
-          split; [|exact L2]. unfold cnt in *. rewrite C2. cbn [o_with_p o_t].
+          split; [|exact L2]. unfold cnt in *. rewrite C2, N.mul_succ_r. cbn [o_with_p o_t].
           (* shape of the visited children and cleanliness of kept identifiers *)
           pose proof (map_st_ident_fix _ _ _ _ _ _ M) as F2.
           pose proof (good_children (K KBin lo hi) cs eq_refl G) as GC.
@@ -380,28 +386,28 @@ Section OpLevel.
           inversion F4 as [|r0 ? ? ? Fr F5]; subst. inversion F5; subst.
           inversion GC as [|? ? _ GC2]; subst. inversion GC2 as [|? ? Gl GC3]; subst. inversion GC3 as [|? ? Gr _]; subst.
           fold (binary_transform c (Node (K KBin lo hi) [opn1; l1; r1]) (o_p s1)) in B.
-          apply binary_transform_ns in B.
+          apply (binary_transform_ns (stop:=stop) (kappa:=kappa)) in B.
           -- rewrite B. rewrite (ns_node (K KBin lo hi)) in P1 by reflexivity.
              rewrite (ns_node (K KBin lo hi)) by reflexivity. lia.
-          -- intros I. rewrite (proj1 Fl I). apply good_zero; exact Gl.
-          -- intros I. rewrite (proj1 Fr I). apply good_zero; exact Gr.
+          -- intros I. rewrite (proj1 Fl I). apply mu_good; exact Gl.
+          -- intros I. rewrite (proj1 Fr I). apply mu_good; exact Gr.
         * cbn [fst snd]. rewrite o_update_notmodified. exact (conj P1 L1).
       + simpl in H. destruct (map_st (op_visit c f root) cs s) as [[cs1 sy]|] eqn:M; [|discriminate].
-        inversion H; subst. exact (DV root (K KBin lo hi) cs s cs1 s' eq_refl M G L).
+        inversion H; subst. exact (DV root (K KBin lo hi) cs s cs1 s' eq_refl eq_refl M G L).
     - (* += *)
       destruct n as [[k lo hi| | | | | |] cs]; try discriminate CK. inversion CK; subst k. clear CK.
       destruct (plus_enabled c).
       + destruct (default_visit_with (op_visit c f false) (Node (K KAssign lo hi) cs) s) as [[n1 s1]|] eqn:E; [|discriminate].
         simpl in E. destruct (map_st (op_visit c f false) cs s) as [[cs1 sy]|] eqn:M; [|discriminate].
         inversion E; subst n1 sy. clear E.
-        destruct (DV false (K KAssign lo hi) cs s cs1 s1 eq_refl M G L) as [P1 L1].
+        destruct (DV false (K KAssign lo hi) cs s cs1 s1 eq_refl eq_refl M G L) as [P1 L1].
         unfold finish in H. inversion H; subst n' s'. clear H.
         unfold post, live, cnt. rewrite o_leave_t.
         unfold assign_step. destruct (is_op assign_op "+=" (Node (K KAssign lo hi) cs1)) eqn:Op; [|exact (conj P1 L1)].
         destruct (assign_transform c (Node (K KAssign lo hi) cs1) (o_p s1)) as [[e'|] p2] eqn:B.
         * cbn [fst snd].
           destruct (o_update_modified (Some gen_ADD_ASSIGN_TAG) (o_with_p p2 s1) L1) as [L2 C2].
-          split; [|exact L2]. unfold cnt in *. rewrite C2. cbn [o_with_p o_t].
+          split; [|exact L2]. unfold cnt in *. rewrite C2, N.mul_succ_r. cbn [o_with_p o_t].
           pose proof (map_st_ident_fix _ _ _ _ _ _ M) as F2.
           pose proof (good_children (K KAssign lo hi) cs eq_refl G) as GC.
           destruct G as [W Z]. apply wf_all_children in W. destruct W as [W _].
@@ -422,15 +428,15 @@ Section OpLevel.
           destruct (op_visit c f false lhs sa) as [[l1 sb]|] eqn:Ml; [|discriminate].
           destruct (op_visit c f false rhs sb) as [[r1 sc]|] eqn:Mr; [|discriminate].
           inversion M; subst o1 l1 r1 sc. clear M.
-          apply assign_transform_ns in B.
+          apply (assign_transform_ns (stop:=stop) (kappa:=kappa)) in B.
           -- rewrite B. rewrite (ns_node (K KAssign lo hi)) in P1 by reflexivity.
              rewrite (ns_node (K KAssign lo hi)) by reflexivity. lia.
           -- reflexivity.
-          -- intros I. rewrite (proj1 Fr I). apply good_zero; exact Gr.
-          -- intros lhs' hoisted p0 Hh. eapply hoist_target_clean; [exact W | apply good_zero; exact Gl | exact Ml | exact Hh].
+          -- intros I. rewrite (proj1 Fr I). apply mu_good; exact Gr.
+          -- intros lhs' hoisted p0 Hh. eapply hoist_target_clean; [exact W | apply mu_good; exact Gl | exact Ml | exact Hh].
         * cbn [fst snd]. rewrite o_update_notmodified. exact (conj P1 L1).
       + simpl in H. destruct (map_st (op_visit c f root) cs s) as [[cs1 sy]|] eqn:M; [|discriminate].
-        inversion H; subst. exact (DV root (K KAssign lo hi) cs s cs1 s' eq_refl M G L).
+        inversion H; subst. exact (DV root (K KAssign lo hi) cs s cs1 s' eq_refl eq_refl M G L).
     - (* template *)
       destruct n as [[k lo hi| | | | | |] cs]; try discriminate CK. inversion CK; subst k. clear CK.
       destruct (tpl_enabled c).
@@ -438,31 +444,31 @@ Section OpLevel.
         * destruct (default_visit_with (op_visit c f false) (Node (K KTpl lo hi) cs) s) as [[n1 s1]|] eqn:E; [|discriminate].
           simpl in E. destruct (map_st (op_visit c f false) cs s) as [[cs1 sy]|] eqn:M; [|discriminate].
           inversion E; subst n1 sy. clear E.
-          destruct (DV false (K KTpl lo hi) cs s cs1 s1 eq_refl M G L) as [P1 L1].
+          destruct (DV false (K KTpl lo hi) cs s cs1 s1 eq_refl eq_refl M G L) as [P1 L1].
           unfold finish in H. inversion H; subst n' s'. clear H.
           unfold post, live, cnt. rewrite o_leave_t. unfold tpl_step.
           destruct (template_transform c (Node (K KTpl lo hi) cs1) (o_p s1)) as [[e'|] p2] eqn:B.
           -- cbn [fst snd].
              destruct (o_update_modified (Some gen_TPL_TAG) (o_with_p p2 s1) L1) as [L2 C2].
-             split; [|exact L2]. unfold cnt in *. rewrite C2. cbn [o_with_p o_t].
-             apply template_transform_ns in B. rewrite B. lia.
+             split; [|exact L2]. unfold cnt in *. rewrite C2, N.mul_succ_r. cbn [o_with_p o_t].
+             apply (template_transform_ns (stop:=stop) (kappa:=kappa)) in B. rewrite B. lia.
           -- cbn [fst snd]. rewrite o_update_notmodified. exact (conj P1 L1).
-        * inversion H; subst. split; [rewrite (good_zero _ G); simpl; lia | exact L].
+        * inversion H; subst. split; [rewrite (mu_good _ G); simpl; lia | exact L].
       + simpl in H. destruct (map_st (op_visit c f root) cs s) as [[cs1 sy]|] eqn:M; [|discriminate].
-        inversion H; subst. exact (DV root (K KTpl lo hi) cs s cs1 s' eq_refl M G L).
+        inversion H; subst. exact (DV root (K KTpl lo hi) cs s cs1 s' eq_refl eq_refl M G L).
     - (* call *)
       destruct n as [[k lo hi| | | | | |] cs]; try discriminate CK. inversion CK; subst k. clear CK.
       destruct (default_visit_with (op_visit c f false) (Node (K KCall lo hi) cs) s) as [[n1 s1]|] eqn:E; [|discriminate].
       simpl in E. destruct (map_st (op_visit c f false) cs s) as [[cs1 sy]|] eqn:M; [|discriminate].
       inversion E; subst n1 sy. clear E.
-      destruct (DV false (K KCall lo hi) cs s cs1 s1 eq_refl M G L) as [P1 L1].
+      destruct (DV false (K KCall lo hi) cs s cs1 s1 eq_refl eq_refl M G L) as [P1 L1].
       unfold finish in H. inversion H; subst n' s'. clear H.
       unfold post, live, cnt. rewrite o_leave_t. unfold call_step.
       destruct (callee_is_expr (Node (K KCall lo hi) cs1)); [|exact (conj P1 L1)].
       destruct (call_transform c (Node (K KCall lo hi) cs1) (o_p s1)) as [[[e' tag]|] p2] eqn:B.
       + cbn [fst snd].
         destruct (o_update_modified (Some tag) (o_with_p p2 s1) L1) as [L2 C2].
-        split; [|exact L2]. unfold cnt in *. rewrite C2. cbn [o_with_p o_t].
+        split; [|exact L2]. unfold cnt in *. rewrite C2, N.mul_succ_r. cbn [o_with_p o_t].
         pose proof (map_st_ident_fix _ _ _ _ _ _ M) as F2.
         pose proof (good_children (K KCall lo hi) cs eq_refl G) as GC.
         destruct G as [W Z]. apply wf_all_children in W. destruct W as [W _].
@@ -479,10 +485,10 @@ Section OpLevel.
         eapply op_visit_leaf in Mc; [|exact Wc]. destruct Mc as [-> ->].
         eapply op_visit_leaf in Mt; [|exact Wt]. destruct Mt as [-> ->].
         inversion GC as [|? ? _ GC2]; subst. inversion GC2 as [|? ? Gk _]; subst.
-        apply call_transform_ns in B.
-        * rewrite B. cbn [plus]. rewrite Nat2N.inj_succ. lia.
+        apply (call_transform_ns (stop:=stop) (kappa:=kappa)) in B.
+        * rewrite B. lia.
         * split; apply ns_leaf; assumption.
-        * intros I. rewrite (op_visit_ident_fix _ _ _ _ _ _ _ Mk I). apply good_zero; exact Gk.
+        * intros I. rewrite (op_visit_ident_fix _ _ _ _ _ _ _ Mk I). apply mu_good; exact Gk.
       + cbn [fst snd]. exact (conj P1 L1).
     - (* optional chain: outside the fragment *)
       destruct n as [[k lo hi| | | | | |] cs]; try discriminate CK. inversion CK; subst k.
@@ -490,20 +496,22 @@ Section OpLevel.
     - (* unary *)
       destruct n as [[k lo hi| | | | | |] cs]; try discriminate CK. inversion CK; subst k. clear CK.
       destruct (is_op unary_op "delete" (Node (K KUnary lo hi) cs)).
-      + inversion H; subst. split; [rewrite (good_zero _ G); simpl; lia | exact L].
+      + inversion H; subst. split; [rewrite (mu_good _ G); simpl; lia | exact L].
       + simpl in H. destruct (map_st (op_visit c f root) cs s) as [[cs1 sy]|] eqn:M; [|discriminate].
-        inversion H; subst. exact (DV root (K KUnary lo hi) cs s cs1 s' eq_refl M G L).
+        inversion H; subst. exact (DV root (K KUnary lo hi) cs s cs1 s' eq_refl eq_refl M G L).
     - (* arrow *)
-      inversion H; subst. split; [rewrite arrow_transform_ns, (good_zero _ G); simpl; lia | exact L].
+      inversion H; subst. split; [rewrite (mu_arrow _ G); simpl; lia | exact L].
     - (* leaf *)
-      inversion H; subst. split; [rewrite (good_zero _ G); simpl; lia | exact L].
+      inversion H; subst. split; [rewrite (mu_good _ G); simpl; lia | exact L].
     - (* everything else: default traversal *)
       assert (P : plain n = true).
       { unfold plain. destruct n as [[k lo hi| | | | | |] cs]; try reflexivity; try discriminate Cl.
         destruct k; simpl in Cl; try discriminate Cl; try reflexivity. }
+      assert (NB : stop_kind n = false).
+      { destruct n as [[k lo hi| | | | | |] cs]; try reflexivity. destruct k; try reflexivity; simpl in Cl; discriminate Cl. }
       destruct n as [t cs].
       assert (GEN : forall cs1, map_st (op_visit c f root) cs s = Some (cs1, s') -> n' = Node t cs1 -> post n' s s').
-      { intros cs1 M ->. exact (DV root t cs s cs1 s' P M G L). }
+      { intros cs1 M ->. exact (DV root t cs s cs1 s' P NB M G L). }
       destruct (default_visit_cases (op_visit c f root) (Node t cs) s) as [TT | [OC | GN]].
       + (* tagged template: the template part is visited through its children *)
         destruct TT as (lo & hi & cx & tg & tp & tplt & tplcs & EQ). inversion EQ; subst t cs. clear EQ.
@@ -524,13 +532,25 @@ Section OpLevel.
         destruct (map_st_count (op_visit c f root) tplcs (fun x _ => IH root x) _ _ _ M2
                     (good_children (K KTpl tlo thi) tplcs eq_refl G4) L1) as [A2 L2].
         split; [|exact L2].
-        rewrite (ns_node (K KTaggedTpl lo hi)) by reflexivity. cbn [ns_count_list fold_right].
-        rewrite (ns_node (K KTpl tlo thi)) by reflexivity. cbn [ns_count_list fold_right] in A1.
+        rewrite (ns_node (K KTaggedTpl lo hi)) by reflexivity. cbn [mul fold_right].
+        rewrite (ns_node (K KTpl tlo thi)) by reflexivity. cbn [mul fold_right] in A1.
         unfold cnt in *. lia.
       + (* optional chain: its class is not OOther *)
         destruct OC as (lo & hi & opt & bt & bcs & EQ). inversion EQ; subst. simpl in Cl. discriminate Cl.
       + rewrite GN in H. cbn [children tag_of] in H.
         destruct (map_st (op_visit c f root) cs s) as [[cs1 sy]|] eqn:M; [|discriminate].
-        inversion H; subst. exact (DV root t cs s cs1 s' P M G L).
+        inversion H; subst. exact (DV root t cs s cs1 s' P NB M G L).
   Qed.
 End OpLevel.
+End Generic.
+
+(** ** Instance: the number of references to the hook namespace *)
+Theorem op_visit_count_ns c : c_verbosity c <> VOff -> forall fuel root n s n' s',
+  op_visit c fuel root n s = Some (n', s') -> good n -> live s ->
+  (N.of_nat (ns_count n') + cnt s = cnt s')%N /\ live s'.
+Proof.
+  intros Hv fuel root n s n' s' H G L.
+  destruct (op_visit_count no_stop 1 (fun n G => proj2 G)
+              (fun n G => eq_trans (arrow_transform_ns n) (proj2 G)) c Hv _ _ _ _ _ _ H G L) as [A B].
+  split; [|exact B]. change (N.of_nat 1) with 1%N in A. rewrite !N.mul_1_l in A. exact A.
+Qed.
